@@ -208,52 +208,53 @@ def run(ctx, R):
              func=gb, nontrivial=False)
     R.count('R20.3', 1, 1)
     # ---- R20.4 ----------------------------------------------------------------
+    # Stated over builder views (common.builder_view), so loops with
+    # append/add/continue and comprehensions are one shape.
     kept = [n for n in own_nodes(f.node) if isinstance(n, ast.Assign)
             and any(isinstance(t, ast.Name) and t.id == S
                     for t in n.targets)]
     ok4 = False
     why = '%d assignments to the summaries' % len(kept)
-    if len(kept) == 1 and isinstance(kept[0].value, ast.Name):
-        kname = kept[0].value.id
-        loops = [x for x in own_nodes(f.node) if isinstance(x, ast.For)]
-        root_loops = [x for x in loops if src(x.iter) == P or src(
-            x.iter) in aliases]
-        sum_loops = [x for x in loops if src(x.iter) == S]
-        why = 'loops over requests=%d summaries=%d' % (len(root_loops),
-                                                       len(sum_loops))
-        if len(root_loops) == 1 and len(sum_loops) == 1:
-            rl, sl = root_loops[0], sum_loops[0]
-            adds = [c for c in own_nodes_of(rl) if isinstance(c, ast.Call)
-                    and isinstance(c.func, ast.Attribute)
-                    and c.func.attr == 'add']
-            inner = [x for x in own_nodes_of(rl) if isinstance(x, ast.For)
-                     and x is not rl]
-            okr = len(adds) == 1 and len(inner) == 1 and src(
-                inner[0].iter) == '%s.resource_requests' % src(rl.target) \
-                and src(adds[0].args[0]) == \
-                '%s.resource_provider.root_provider_uuid' % src(
-                    inner[0].target) and not [
-                    x for x in own_nodes_of(rl)
-                    if isinstance(x, (ast.Continue, ast.Break, ast.If))]
-            rootset = src(adds[0].func.value) if adds else None
-            # the root loop sees the limited list
+    if len(kept) == 1:
+        kv = kept[0].value
+        if isinstance(kv, ast.Name):
+            kview = C.builder_view(f, kv.id)
+        else:
+            kview = C.builder_view(f, S)
+        roots_name = None
+        if kview is not None:
+            for e, _pol in kview['conds']:
+                if isinstance(e, ast.Compare) and len(e.ops) == 1 and \
+                        isinstance(e.comparators[0], ast.Name):
+                    roots_name = e.comparators[0].id
+        rview = C.builder_view(f, roots_name) if roots_name else None
+        why = 'kept=%s roots=%s' % (C.view_key(kview), C.view_key(rview))
+        if kview is not None and rview is not None:
+            L = src(rview['gens'][0][1]) if rview['gens'] else None
+            want_roots = 'set{v1.resource_provider.root_provider_uuid | ' \
+                'v0 in LIST; v1 in v0.resource_requests}'
+            want_kept = 'list{v0 | v0 in SUMS; if v0.resource_provider.' \
+                'root_provider_uuid in ROOTS}'
+            okr = (L == P or L in aliases) and C.view_key(
+                rview, {L: 'LIST'}) == want_roots
+            oks = C.view_key(kview, {S: 'SUMS', roots_name: 'ROOTS'}) == \
+                want_kept
+            rl, sl = rview['stmt'], kview['stmt']
+            # the roots are collected from the limited list ...
             rifs = C.guarding_ifs(rl, f.node)
             okdom = bool(rifs) and g.must_pass(rifs[0][0], rl,
                                                set(producing))
-            # ... and that very list is what is returned: after the loop
-            # nothing rebinds the list it walked, and the returned name is
-            # it (directly, or by a plain copy of the alias)
-            L = src(rl.iter)
+            # ... and that very list is what is returned: after the roots
+            # were collected nothing rebinds the list they were taken from,
+            # and the returned name is it (directly, or by a plain copy of
+            # the alias)
             after = g.reachable_from([rl]) - set(own_nodes_of(rl))
             for x in after:
                 if not isinstance(x, ast.Assign):
                     continue
                 for t in x.targets:
-                    if isinstance(t, ast.Name) and t.id == L and not (
-                            L == P and False):
+                    if isinstance(t, ast.Name) and t.id == L:
                         okdom = False
-                        why_extra = 'line %d rebinds %s after the roots ' \
-                            'were collected' % (x.lineno, L)
                     if isinstance(t, ast.Name) and t.id == P and L != P \
                             and src(x.value) != L:
                         okdom = False
@@ -264,33 +265,10 @@ def run(ctx, R):
                           and src(x.value) == L]
                 okdom = okdom and bool(copies) and g.must_pass(
                     rl, cfgmod.EXIT, set(copies), normal_only=True)
-            apps = [c for c in own_nodes_of(sl) if isinstance(c, ast.Call)
-                    and isinstance(c.func, ast.Attribute)
-                    and c.func.attr == 'append'
-                    and src(c.func.value) == kname]
-            conts = [x for x in own_nodes_of(sl)
-                     if isinstance(x, ast.Continue)]
-            oks = len(apps) == 1 and src(apps[0].args[0]) == src(sl.target)
-            for c in conts:
-                ifs = C.guarding_ifs(c, sl)
-                t = ifs[0][0].test if len(ifs) == 1 else None
-                if not (isinstance(t, ast.Compare) and isinstance(
-                        t.ops[0], ast.NotIn) and src(
-                            t.comparators[0]) == rootset):
-                    oks = False
-                else:
-                    lhs = t.left
-                    if isinstance(lhs, ast.Name):
-                        d = c05.single_def(f, lhs.id)
-                        lhs = d.value if d is not None else lhs
-                    if src(lhs) != '%s.resource_provider.' \
-                            'root_provider_uuid' % src(sl.target):
-                        oks = False
-            if [x for x in own_nodes_of(sl) if isinstance(x, ast.Break)]:
-                oks = False
-            ok4 = okr and oks and okdom and g.dominates(rl, sl) and \
-                g.dominates(sl, kept[0])
-            why = 'roots-loop %s, summaries-loop %s' % (okr, oks)
+            ok4 = okr and oks and okdom and g.dominates(rl, sl) and (
+                sl is kept[0] or g.dominates(sl, kept[0]))
+            why = 'roots-view %s, summaries-view %s, list %s; %s' % (
+                okr, oks, okdom, why)
     R.ob('R20.4', 'kept-summaries', ok4,
          'kept summaries = every summary whose root is the root of a '
          'provider named by a kept request', why, func=f)
